@@ -85,9 +85,11 @@ type runStat struct {
 	Ignored    int    `json:"ignored"`      // known / parent-missing deliveries
 	MaxRows    int    `json:"maxRows"`      // largest table size seen
 	FiveTopics int    `json:"fiveTopicRows"`
+	Cancels    int    `json:"cancels"`   // syncLogDB cancelled on its way, then completed by the next start
+	WriteErrs  int    `json:"writeErrs"` // Writer.Write refused a block (sequence bounds)
 }
 
-var scenarios = []string{"reorg", "pingpong", "crash", "rawdb"}
+var scenarios = []string{"reorg", "pingpong", "crash", "rawdb", "disk", "pack", "deep"}
 
 func main() {
 	out := flag.String("out", ".", "output directory")
@@ -96,6 +98,7 @@ func main() {
 	scen := flag.String("scen", "all", "scenario name, comma list, or all")
 	blocks := flag.Int("blocks", 22, "blocks per run")
 	queries := flag.Int("queries", 24, "filter queries per checkpointed state")
+	million := flag.Bool("million", false, "scenario pack: also probe the log index bound 2^20 (two blocks with a million events)")
 	flag.Parse()
 	list := scenarios
 	if *scen != "all" {
@@ -110,8 +113,12 @@ func main() {
 		var evs []trace.Ev
 		var st runStat
 		switch s {
-		case "reorg", "pingpong":
+		case "reorg", "pingpong", "deep":
 			evs, st = runTree(rec, s, rseed, *blocks, *queries, i)
+		case "disk":
+			evs, st = runDisk(rec, rseed, *blocks, *queries, i)
+		case "pack":
+			evs, st = runPack(rec, rseed, *queries, i, *million)
 		case "crash":
 			evs, st = runCrash(rec, rseed, *blocks, *queries, i)
 		case "rawdb":
